@@ -375,7 +375,7 @@ func (p stProp) Gen(r *Rand, idx int, tier string) Sx {
 		// existence: the refresh this triggers allocates space itself, and when the
 		// copy does not fit the block in use the allocation rotates the block list
 		// between the lookup of the old location and the copy.
-		if len(threads) == 0 && len(ops)+12 < nops && r.Chance(7) {
+		if len(threads) == 0 && len(ops)+12 < nops && r.Chance(map[string]int{"c05": 20}[p.flavor]+7) {
 			big := []int{}
 			for o := 0; o < nobj; o++ {
 				if len(objs[o])*2 >= bs && len(objs[o]) <= bs {
@@ -397,6 +397,19 @@ func (p stProp) Gen(r *Rand, idx int, tier string) Sx {
 					}
 					ops = append(ops, L(A(3), AI(tid), A(0)))
 				}
+				// sometimes a second, OLDER target: a multi-digest existence check over both
+				// refreshes one of them first, and that refresh's allocation can rotate the
+				// other one out before its turn comes
+				target2, ti2 := -1, 0
+				if len(big) > 1 && r.Chance(45) {
+					target2 = big[(indexOf(big, target)+1+r.Intn(len(big)-1))%len(big)]
+					if target2 == target {
+						target2 = -1
+					} else {
+						ti2 = inst()
+						up(target2, ti2)
+					}
+				}
 				up(target, ti)
 				for k := cur + nw + r.Intn(old+2); k > 0; k-- {
 					o := big[r.Intn(len(big))]
@@ -404,6 +417,25 @@ func (p stProp) Gen(r *Rand, idx int, tier string) Sx {
 						o = big[(r.Intn(len(big)-1)+1+indexOf(big, target))%len(big)]
 					}
 					up(o, inst())
+				}
+				if target2 >= 0 {
+					d1, d2 := [2]int{target, ti}, [2]int{target2, ti2}
+					if !instKeys {
+						d1[1], d2[1] = 0, 0
+					}
+					names, _ := stInstanceNames(stAncSx(anc))
+					ds := []Sx{L(AI(d1[0]), AI(d1[1])), L(AI(d2[0]), AI(d2[1]))}
+					sort.Slice(ds, func(a, b int) bool {
+						return stDigestString(objs, names, ds[a].Nth(0).Int(), ds[a].Nth(1).Int()) <
+							stDigestString(objs, names, ds[b].Nth(0).Int(), ds[b].Nth(1).Int())
+					})
+					ops = append(ops, L(A(6), L(ds...)))
+					for _, d := range [][2]int{{target2, ti2}, {target, ti}} {
+						tid := nextTid
+						nextTid++
+						ops = append(ops, L(A(4), AI(tid), AI(d[0]), AI(d[1])), L(A(5), AI(tid)))
+					}
+					continue
 				}
 				for k := 1 + r.Intn(2); k > 0; k-- {
 					if r.Chance(65) {
